@@ -360,7 +360,7 @@ package core
 //@       ==> f.Peer.Done
 //@   ensures[spliterr.body@C11] (err == nil && f.Owner != nil && f.Peer != nil && split(f.Peer) && f.RspBody[0] == '-' && len(f.RspBody) <= EngineGlobal.sCodec.MsgMaxLength && old(hd(c).Error) == "")
 //@       ==> bytes_eq(f.Peer.RspBody, f.RspBody)
-//@   ensures[spliterr.all@C11] (err == nil && f.Owner != nil && f.Peer != nil && split(f.Peer) && f.RspBody[0] == '-' && len(f.RspBody) <= EngineGlobal.sCodec.MsgMaxLength && old(hd(c).Error) == "")
+//@   ensures[spliterr.all@C11,C03] (err == nil && f.Owner != nil && f.Peer != nil && split(f.Peer) && f.RspBody[0] == '-' && len(f.RspBody) <= EngineGlobal.sCodec.MsgMaxLength && old(hd(c).Error) == "")
 //@       ==> (forall k int32 :: has(f.Peer.Body, k) ==> f.Peer.Body[k].Done)
 //@   ensures[toolarge@C17] (err == nil && f.Owner != nil && f.Peer != nil && len(f.RspBody) > EngineGlobal.sCodec.MsgMaxLength)
 //@       ==> f.Peer.Done && bytes_eq(f.Peer.RspBody, "-ERR rsp msg length too large\r\n")
